@@ -150,6 +150,9 @@ def gen(t, tier):
         if t.chance(0.35):
             sc['coverage'] = None       # whole extent: the per-level fast paths of every backend on a deep pyramid
     sc['old_dirs'] = b['type'] == 'file' and bool(t.chance(0.2))
+    sc['slow_remove'] = t.pick([None] * 9 + [3.0, 7.0])
+    if deep:
+        sc['slow_remove'] = None        # thousands of multi-second removals would only burn steps
     if has_ts and t.chance(0.3):
         sc['pre_task'] = {'levels': sorted(set(t.choice(nlev) for _ in range(2)))}
     sc['tz'] = t.pick(C.TIMEZONES)
@@ -173,7 +176,7 @@ def shrink(sc):
                 yield c
         size //= 2
     for key, simple in (('coverage', None), ('cov_srs', '3857'), ('meta_size', [1, 1]), ('salt', None), ('after', 0.0),
-                        ('cache_refresh', None), ('pre_task', None), ('old_dirs', False)):
+                        ('cache_refresh', None), ('pre_task', None), ('old_dirs', False), ('slow_remove', None)):
         if sc.get(key, simple) != simple:
             c = copy.deepcopy(sc)
             c[key] = simple
@@ -275,6 +278,8 @@ def _run(sc, tape):
 
     v = None
     probes = {}
+    restore = []
+    faults = {}
     unspecified = [0]
     result = {}
 
@@ -452,6 +457,19 @@ def _run(sc, tape):
         if before != set(times_of):
             result['bad'] = ('store-lost', 'tiles %s are not in the cache after storing them' % sorted(set(times_of) - before))
             return
+        if sc.get('slow_remove'):
+            # a stalled backend (network storage, a database busy with the live server): every removal takes seconds, the
+            # walker's hand-off queue stays full for longer than its 5 s put time-out
+            cls_ = type(tm.cache)
+            orig_remove = cls_.remove_tile
+
+            def slow_remove(self_, tile, *a, **kw):
+                import time as _t
+                _t.sleep(sc['slow_remove'])
+                return orig_remove(self_, tile, *a, **kw)
+            cls_.remove_tile = slow_remove
+            restore.append(lambda: setattr(cls_, 'remove_tile', orig_remove))
+            faults['slow_removals'] = 1
         out = io.StringIO()
         try:
             with contextlib.redirect_stdout(out):
@@ -556,6 +574,8 @@ def _run(sc, tape):
             elif outcome != 'done':
                 v = {'sig': 'C12:hang:%s' % name, 'msg': 'cleanup did not terminate: %s %r' % (outcome, sched.stuck_info)}
     finally:
+        for fn_ in restore:
+            fn_()
         if realdir is not None:
             shutil.rmtree(realdir, ignore_errors=True)
     probes['tiles_required_removed'] = result.get('removed', 0)
@@ -567,7 +587,7 @@ def _run(sc, tape):
         probes['local_time_zone_not_utc'] = 1
     return {'violation': v, 'digest': C.digest_of(sc, sched.log if onsim else len(sched.log), w.fs.op_count, result.get('removed'), result.get('kept')),
             'nontrivial': result.get('removed', 0) > 0 and result.get('kept', 0) > 0, 'steps': sched.steps,
-            'sim_time': clock.now - 1.7e9, 'faults': {}, 'probes': probes, 'unspecified': unspecified[0],
+            'sim_time': clock.now - 1.7e9, 'faults': faults, 'probes': probes, 'unspecified': unspecified[0],
             'sample': {'backend': name, 'mode': sc['mode'], 'levels': sc['levels'], 'coverage': sc['coverage'],
                        'tiles': sc['tiles'][:10], 'removed': result.get('removed'), 'kept': result.get('kept')}}
 
